@@ -1,6 +1,7 @@
 (* Extract/Driver.v — the operations the correspondence driver evaluates on the model.
    Only dispatch: every operation is a direct call of a model function. *)
 From FP.Model Require Import Sem.
+From FP.Model Require Locks.
 Local Open Scope N_scope.
 
 Inductive op :=
@@ -9,14 +10,23 @@ Inductive op :=
  | OCalc (a : alg) (buf : list byte)
  | OEnc (t : N) (fs : list value) (buf : list byte)
  | ODec (t : N) (fs : list value) (buf : list byte)
- | OZero (t : N).
+ | OZero (t : N)
+ | OReg (cs : list Locks.call).
 
 Inductive out :=
  | RBytes (r : res (list byte))
  | RValue (r : res (value * list byte))
  | RNum (n : N)
  | RMsg (r : res (list value * list byte))
- | RZero (o : option (list value)).
+ | RZero (o : option (list value))
+ | RRets (l : list Locks.ret).
+
+(* a sequence of registry calls against the atomic map, from the empty registry *)
+Fixpoint run_seq (cs : list Locks.call) (m : Locks.kvmap) : list Locks.ret :=
+  match cs with
+  | [] => []
+  | c :: r => let (m', x) := Locks.seq c m in x :: run_seq r m'
+  end.
 
 Definition run_op (w : world) (o : op) : out :=
   match o with
@@ -26,4 +36,5 @@ Definition run_op (w : world) (o : op) : out :=
   | OEnc t fs buf => RMsg (run_enc w t fs buf)
   | ODec t fs buf => RMsg (run_dec w t fs buf)
   | OZero t => RZero (zero w t)
+  | OReg cs => RRets (run_seq cs Locks.empty)
   end.
